@@ -167,7 +167,9 @@ func keyflowRule(c *Ctx, rule string) {
 		return
 	}
 	okLookup, n := true, 0
-	allInstrs(ev, func(i ssa.Instruction) {
+	// (the lookup may sit in a function literal that eval hands to a get/compute/put helper: evalBodies; the key computed
+	// outside the literal is seen through the captured variable)
+	instrsOf(evalBodies(c, ev), func(i ssa.Instruction) {
 		call, ok := i.(*ssa.Call)
 		if !ok || !call.Call.IsInvoke() || call.Call.Method.Name() != getColName {
 			return
@@ -227,17 +229,41 @@ func universeRule(c *Ctx, rule string) {
 	}
 	flipNames := map[string]bool{roaringPkg + ".Flip": true, roaringPkg + ".FlipInt": true, "(*" + roaringPkg + ".Bitmap).Flip": true, "(*" + roaringPkg + ".Bitmap).FlipInt": true}
 	n := 0
-	allInstrs(en, func(i ssa.Instruction) {
-		call, ok := i.(*ssa.Call)
-		if !ok || !flipNames[calleeName(&call.Call)] {
-			return
-		}
+	// The complement may be computed in a function literal that eval hands to a get/compute/put helper, and the Flip
+	// itself may sit in a small helper (`complement(bm, idx.rowCount)`): the Flip calls of eval's bodies and of the
+	// module helpers those call directly are judged, a helper's parameters standing for the arguments of its call.
+	type flipSite struct {
+		call *ssa.Call // the Flip
+		via  *ssa.Call // the call of the helper that contains it (nil: in eval's own bodies)
+	}
+	var flips []flipSite
+	bodies := evalBodies(c, en)
+	for _, b := range bodies {
+		allInstrs(b, func(i ssa.Instruction) {
+			if call, ok := i.(*ssa.Call); ok && flipNames[calleeName(&call.Call)] {
+				flips = append(flips, flipSite{call, nil})
+			}
+		})
+	}
+	for _, hc := range helperCallsIn(c, bodies) {
+		allInstrs(calleeFunc(&hc.Call), func(i ssa.Instruction) {
+			if call, ok := i.(*ssa.Call); ok && flipNames[calleeName(&call.Call)] {
+				flips = append(flips, flipSite{call, hc})
+			}
+		})
+	}
+	for _, fs := range flips {
+		call := fs.call
 		n++
 		args := call.Call.Args
-		lo, hi := args[len(args)-2], args[len(args)-1]
+		lo, hi := boundArg(fs.via, args[len(args)-2]), args[len(args)-1]
 		k, isK := constInt(lo)
 		okLo := isK && k == 0
 		hb, ho := lin(hi)
+		if a := boundArg(fs.via, hb); a != hb {
+			ab, ao := lin(a)
+			hb, ho = ab, ho+ao
+		}
 		// (the Index's own counter: with the counter in a struct the Index shares with the writers — an embedded header — the
 		// field must be selected from an Index)
 		okHi := ho == 0 && srcField(hb) == rows && srcHolder(hb) == c.a.IndexT
@@ -260,14 +286,14 @@ func universeRule(c *Ctx, rule string) {
 			why = fmt.Sprintf("the range does not end at the index's row count (offset %+d or a different value)", ho)
 		}
 		// the flipped bitmap must be the operand's result
-		opnd := args[len(args)-3]
+		opnd := boundArg(fs.via, args[len(args)-3])
 		if e, ok := opnd.(*ssa.Extract); !ok || e.Index != 0 {
 			why = "what is flipped is not the operand's evaluation result"
 		} else if ec, ok := e.Tuple.(*ssa.Call); !ok || !ec.Call.IsInvoke() || ec.Call.Method.Name() != evalName {
 			why = "what is flipped is not the operand's evaluation result"
 		}
 		c.r.check(why == "", rule, safeFname(en)+": complement", "Flip(operand, 0, rowCount)", "NOT does not complement exactly within the rows of the index: "+why, c.w.ipos(call))
-	})
+	}
 	if n == 0 {
 		c.r.bad(rule, safeFname(en)+": complement", "NOT is not computed with a roaring Flip over the row universe", []string{c.w.pos(en.Pos())})
 	}
@@ -634,7 +660,9 @@ func opmapRule(c *Ctx, rule string) {
 		name := safeFname(fn)
 		exprsF := structFieldNamed(c.w.namedType(pkgRoot, spec.typ), "Exprs")
 		var comb []*ssa.Call
-		allInstrs(fn, func(i ssa.Instruction) {
+		// (the combining call may sit in a function literal that eval hands to a get/compute/put helper: evalBodies)
+		bodies := evalBodies(c, fn)
+		instrsOf(bodies, func(i ssa.Instruction) {
 			call, ok := i.(*ssa.Call)
 			if !ok {
 				return
@@ -647,7 +675,7 @@ func opmapRule(c *Ctx, rule string) {
 		if len(comb) == 0 {
 			// the evaluation is shared with the sibling operator: a helper receives the operand list and the combining function
 			done := false
-			allInstrs(fn, func(i ssa.Instruction) {
+			instrsOf(bodies, func(i ssa.Instruction) {
 				call, ok := i.(*ssa.Call)
 				if !ok || done {
 					return
@@ -711,7 +739,7 @@ func opmapRule(c *Ctx, rule string) {
 		// the combined slice is built by appending, for every element of e.Exprs in range order, that element's eval result
 		arg := cb.Call.Args[len(cb.Call.Args)-1]
 		isExprsField := func(v ssa.Value) bool { return path(v).lastField() == exprsF }
-		okOps, why := operandLoop(c, fn, arg, isExprsField, 0)
+		okOps, why := operandLoop(c, cb.Parent(), arg, isExprsField, 0)
 		c.r.check(okOps, rule, name, spec.what+" of the evaluation results of every operand", why, c.w.ipos(cb))
 	}
 }
